@@ -67,3 +67,7 @@ Definition c16_idx_delta (op : c16_idx_op) : Z :=
 Fixpoint c16_idx_inrange (lo hi a : Z) (l : list c16_idx_op) : Prop :=
   match l with [] => True | op :: r => c16_in lo hi (a + c16_idx_delta op) /\ c16_idx_inrange lo hi (a + c16_idx_delta op) r end.
 Definition c16_idx_total (l : list c16_idx_op) : Z := fold_left (fun s op => s + c16_idx_delta op) l 0.
+
+(* additions of the API-coverage audit *)
+Definition c16_spec_sorted (le : Z -> Z -> Prop) (l : list Z) : Prop :=
+  forall i j, (i < j < length l)%nat -> le (nth i l 0) (nth j l 0).
